@@ -8,6 +8,7 @@ import (
 	"fmt"
 	"io"
 	"net/http"
+	"regexp"
 	"sort"
 	"strconv"
 	"strings"
@@ -765,6 +766,8 @@ func (cs *C07Case) filter() *glf.Filter {
 	return &glf.Filter{UseHeaders: cs.H, UseBlocks: cs.B, UseReceipts: cs.R, UseLogs: cs.L, UseTraces: cs.T}
 }
 
+var c07IDRE = regexp.MustCompile(`"id":"[^"]*"`)
+
 // RunC07 executes one case.
 func RunC07(t *testing.T, plan *Plan, st *core.Stream, extra Extra, keepLog bool) *Result {
 	installHooks()
@@ -898,7 +901,8 @@ func RunC07(t *testing.T, plan *Plan, st *core.Stream, extra Extra, keepLog bool
 	want, reason := c07Expect(cs, ex)
 	var sb strings.Builder
 	for _, e := range ex {
-		fmt.Fprintf(&sb, "%s %d %x\n", e.kind, e.status, node.Keccak(e.body)[:6])
+		// request ids carry crypto/rand bytes and are echoed in the answers
+		fmt.Fprintf(&sb, "%s %d %x\n", e.kind, e.status, node.Keccak(c07IDRE.ReplaceAll(e.body, []byte(`"id":"x"`)))[:6])
 	}
 	res.LogHash = fmt.Sprintf("%x", node.Keccak([]byte(res.PlanDigest + sb.String()))[:8])
 	res.NonTrivial = len(cs.Corr) > 0
